@@ -252,8 +252,7 @@ Definition parse_svc (s : str) : option N :=
 Definition svc_is_mcast (h : N) : bool := svc_mcast <=? h mod 65536.
 Definition svc_base (h : N) : N := h mod 32768.
 
-Fixpoint pad_left (n : nat) (s : str) : str :=
-  match n with O => s | S k => if Nat.ltb (length s) n then pad_left k (48 :: s) else s end.
+Definition pad_left (w : nat) (s : str) : str := repeat 48 (w - length s) ++ s.
 
 Definition svc_base_string (h : N) : str :=
   let b := svc_base h in
@@ -372,61 +371,68 @@ Definition svc_ok (s : str) (v : N) : bool :=
   svc_known v &&
   (str_eqb s (svc_string v) || (negb (svc_is_mcast v) && str_eqb s (svc_string v ++ s_A))).
 
+(** the codecs: ISD.String/ParseISD, AS.String/ParseAS, IA.String/ParseIA,
+    FormatISD/ParseFormattedISD, FormatAS/ParseFormattedAS, FormatIA/ParseFormattedIA,
+    SVC.String/ParseSVC; numbered 0..6 in the correspondence cases *)
+Inductive codec := KIsd | KAs | KIa | KFIsd | KFAs | KFIa | KSvc.
+
+Definition codec_of (k : N) : codec :=
+  match k with
+  | 0 => KIsd | 1 => KAs | 2 => KIa | 3 => KFIsd | 4 => KFAs | 5 => KFIa | _ => KSvc
+  end.
+
 (** text_ok k opts s v: [s] spells value [v] for codec [k] *)
-Definition text_ok (k : N) (l : list fopt) (s : str) (v : N) : bool :=
+Definition text_ok (k : codec) (l : list fopt) (s : str) (v : N) : bool :=
   let o := apply_opts l in
   let ip := if o_prefix o then isd_prefix else [] in
   let ap := if o_prefix o then as_prefix else [] in
   match k with
-  | 0 => isd_ok s v
-  | 1 => as_ok colon s v
-  | 2 => ia_ok s v
-  | 3 => match trim_prefix ip s with Some t => isd_ok t v | None => false end
-  | 4 => match trim_prefix ap s with Some t => as_ok (o_sep o) t v | None => false end
-  | 5 => ia_ok_with ip ap (o_sep o) s v
-  | _ => svc_ok s v
+  | KIsd => isd_ok s v
+  | KAs => as_ok colon s v
+  | KIa => ia_ok s v
+  | KFIsd => match trim_prefix ip s with Some t => isd_ok t v | None => false end
+  | KFAs => match trim_prefix ap s with Some t => as_ok (o_sep o) t v | None => false end
+  | KFIa => ia_ok_with ip ap (o_sep o) s v
+  | KSvc => svc_ok s v
   end.
 
 (** separators for which formatted ISD-AS text is unambiguous *)
 Definition sep_ok (sep : str) : bool :=
   negb (is_nil sep) && forallb (fun c => negb (is_hex c) && negb (c =? 45)) sep.
 
-(** ---------------------------------------------------------------- correspondence cases
-    k: 0 ISD.String/ParseISD, 1 AS.String/ParseAS, 2 IA.String/ParseIA,
-       3 FormatISD/ParseFormattedISD, 4 FormatAS/ParseFormattedAS,
-       5 FormatIA/ParseFormattedIA, 6 SVC.String/ParseSVC. *)
-Definition fmt_k (k : N) (l : list fopt) (v : N) : str :=
+(** ---------------------------------------------------------------- correspondence cases *)
+Definition fmt_k (k : codec) (l : list fopt) (v : N) : str :=
   match k with
-  | 0 => fmt_isd v
-  | 1 => fmt_as colon v
-  | 2 => fmt_ia v
-  | 3 => format_isd l v
-  | 4 => format_as l v
-  | 5 => format_ia l v
-  | _ => svc_string v
+  | KIsd => fmt_isd v
+  | KAs => fmt_as colon v
+  | KIa => fmt_ia v
+  | KFIsd => format_isd l v
+  | KFAs => format_as l v
+  | KFIa => format_ia l v
+  | KSvc => svc_string v
   end.
 
-Definition parse_k (k : N) (l : list fopt) (s : str) : option N :=
+Definition parse_k (k : codec) (l : list fopt) (s : str) : option N :=
   match k with
-  | 0 => parse_isd s
-  | 1 => parse_as colon s
-  | 2 => parse_ia s
-  | 3 => parse_formatted_isd l s
-  | 4 => parse_formatted_as l s
-  | 5 => parse_formatted_ia l s
-  | _ => parse_svc s
+  | KIsd => parse_isd s
+  | KAs => parse_as colon s
+  | KIa => parse_ia s
+  | KFIsd => parse_formatted_isd l s
+  | KFAs => parse_formatted_as l s
+  | KFIa => parse_formatted_ia l s
+  | KSvc => parse_svc s
   end.
 
 (** values of codec k for which the round trip is claimed *)
-Definition in_domain (k : N) (l : list fopt) (v : N) : bool :=
+Definition in_domain (k : codec) (l : list fopt) (v : N) : bool :=
   match k with
-  | 0 => v <=? max_isd
-  | 1 => v <=? max_as
-  | 2 => v <? 2 ^ 64
-  | 3 => v <=? max_isd
-  | 4 => (v <=? max_as) && sep_ok (o_sep (apply_opts l))
-  | 5 => (v <? 2 ^ 64) && sep_ok (o_sep (apply_opts l))
-  | _ => svc_known v
+  | KIsd => v <=? max_isd
+  | KAs => v <=? max_as
+  | KIa => v <? 2 ^ 64
+  | KFIsd => v <=? max_isd
+  | KFAs => (v <=? max_as) && sep_ok (o_sep (apply_opts l))
+  | KFIa => (v <? 2 ^ 64) && sep_ok (o_sep (apply_opts l))
+  | KSvc => svc_known v
   end.
 
 (** host values in a case: an IP address is identified by its netip text *)
@@ -472,10 +478,10 @@ Inductive case :=
 Definition opt_N_eqb := option_eqb N.eqb.
 
 (** decimal iff the AS fits 32 bits (checked on the implementation's text) *)
-Definition dec_iff_ok (k : N) (l : list fopt) (v : N) (txt : str) : bool :=
+Definition dec_iff_ok (k : codec) (l : list fopt) (v : N) (txt : str) : bool :=
   match k with
-  | 1 => Bool.eqb (forallb is_dec txt) (v <=? max_bgp)
-  | 4 => match trim_prefix (if o_prefix (apply_opts l) then as_prefix else []) txt with
+  | KAs => Bool.eqb (forallb is_dec txt) (v <=? max_bgp)
+  | KFAs => match trim_prefix (if o_prefix (apply_opts l) then as_prefix else []) txt with
          | Some t => Bool.eqb (forallb is_dec t) (v <=? max_bgp)
          | None => false
          end
@@ -487,10 +493,12 @@ Definition host_part (s : str) : str :=
 
 Definition check (c : case) : N :=
   match c with
-  | CFmt k l v txt back =>
+  | CFmt k0 l v txt back =>
+    let k := codec_of k0 in
     Check.verdict (str_eqb (fmt_k k l v) txt && opt_N_eqb (parse_k k l txt) back)
                   (if in_domain k l v then opt_N_eqb back (Some v) && dec_iff_ok k l v txt else true)
-  | CParse k l s impl =>
+  | CParse k0 l s impl =>
+    let k := codec_of k0 in
     Check.verdict (opt_N_eqb (parse_k k l s) impl)
                   (match impl with Some v => text_ok k l s v | None => true end)
   | CHostFmt h txt back =>
@@ -522,8 +530,8 @@ Definition check (c : case) : N :=
 
 Definition diag (c : case) : str * option N * option (N * hostv) :=
   match c with
-  | CFmt k l v txt _ => (fmt_k k l v, parse_k k l txt, None)
-  | CParse k l s _ => ([], parse_k k l s, None)
+  | CFmt k l v txt _ => (fmt_k (codec_of k) l v, parse_k (codec_of k) l txt, None)
+  | CParse k l s _ => ([], parse_k (codec_of k) l s, None)
   | CHostFmt h txt _ =>
     let tbl := ip_table txt (match h with HIP a => Some a | _ => None end) in
     (host_string str (fun a => a) h, None,
